@@ -10,6 +10,30 @@ A_NOTE = ("Trusted: std::sync::mpsc and the 30-line native transport (the simula
           "hash-iteration order pinned by the hooks; scenario templates over a stated grid.")
 
 CHECKS = {
+    "C19": dict(engine="enum", category="model_checking", design="7/C19",
+                technique="explicit-state breadth-first search over operation histories of the real %dict (states are real dict values in real REPL sessions) against a BTreeMap reference",
+                text="Keys chosen by exhaustive search (a full 32-bit FNV-1a collision triple incl. Str vs binary, siblings agreeing on 1..6 five-bit fragments, unrelated and edge-slot keys); BFS over all put(k, v in {1,2}) / remove(k) sequences to depth 5 (thorough: to a fixpoint for three key sets): after every transition get of the affected key and count, once per state get/has? of every key, count, entries/keys/values/iter as multisets, from(entries), merge both ways against a value-swapped version; every earlier version re-observed at the end (persistence).",
+                note="No separate model to validate: every transition runs on the real implementation (traces_validated = transitions). Bucket order inside a Collision node is counted, not judged (not in the statement)."),
+    "C01": dict(engine="enum", category="exploration", design="5.1, 5.2, 7/C01",
+                technique="bounded-exhaustive enumeration of typed program skeletons x inhabitant arguments x cores; every accepted program is run and judged by an error classifier and a structural type-membership oracle",
+                text="Typed skeletons (functions over union/optional/partial/tuple-with-union/generic/recursive-list parameters and union-typed producers) x every listed inhabitant x every core (all block bodies of the core grammar up to n nodes, typed atoms and their pairings), plus the untyped universe of C02 and fixed probes: an accepted program must end in a value inhabiting the inferred result type (witness-based membership on the program's own type tables), a value-domain error, or the instruction budget; never a stuck-state error or panic. Violations in constructs with a known language-level unsoundness are identified by construct class, everything else by shrunk minimal core.",
+                note="Error classifier is a closed list from error.rs; function/process values are 'unknown' for membership; process programs are judged by the Engine-A checks."),
+    "C12": dict(engine="enum", category="exploration", design="5.4, 7/C12",
+                technique="exhaustive Cartesian products of boundary alphabets and rope shapes for all 45 pure builtins against BigInt/Vec<u8> reference models, in watchdogged child processes",
+                text="Every pure builtin on the full product of per-position boundary alphabets (0, +-1, 2^31, 2^32, 2^63, 2^64-1, beyond; bit/lane/byte positions around their own limits) x binary contents x every rope shape with <= 2 constructor steps (before/after materialize) plus the 16 MiB size limit: result equals the plain model or a clean error exactly outside the documented domain; never a panic (overflow checks on) or hang; equal content => equal result over all shapes; a stride also through compiled programs.",
+                note="Models follow doc comments, std/int.qv, std/bin.qv; laws where no convention is documented; abstains beyond machine-word index/shift amounts."),
+    "C16": dict(engine="enum", category="exploration", design="7/C16",
+                technique="exhaustive enumeration of tail-recursive program shapes (target x payload x wrapper sequences) run at N and 50N with profiling, plus a path-complete static height check at every TailCall",
+                text="Every shape target(6) x payload(5) x wrapper sequence (12 wrappers, depth <= 2/3) the compiler accepts is run at N=200 and N=10000: peak frames, locals, operand stack equal; heap slots equal with a reclamation point before every instruction; countdown completes; every path reaching TailCall has operand height 1 (self) / 2 (other). Probes for tail calls outside tail position guard the compile-time rejection.",
+                note="Growth slower than one cell per ~9800 iterations would not be seen; process loops are outside (single-process runner)."),
+    "C18": dict(engine="enum", category="exploration", design="7/C18",
+                technique="bounded-exhaustive enumeration of token strings, all single-token mutations and prefixes of a corpus, and nesting ladders, each parsed/compiled in watchdogged child processes",
+                text="All strings of <= 4 (thorough 5) tokens over a 43-token alphabet, every char-boundary prefix and single-token deletion/duplication/substitution of 1186 corpus sources, nesting ladders to depth 100: parse returns within 2 CPU-seconds with a program or an error whose span lies inside the input on char boundaries with consistent line/column; accepted programs compile to Ok/Err within 5 CPU-seconds; no panic, no crash (one known finding: exponential backtracking on nested parentheses).",
+                note="Quick caps per source are reported in caps_hit; texts mentioning std modules compile in a warm session clone (as the REPL does) and failures are re-checked fresh."),
+    "C20": dict(engine="enum", category="exploration", design="5.4, 7/C20",
+                technique="exhaustive evaluation of all num operations on an operand alphabet (unary, all pairs, law triples) against hand-written exact arithmetic in Q and Q(sqrt n)",
+                text="All 22 exports of %num on ints {0,+-1,+-2,3,6,7,+-2^63,2^64+1,10^30}, all rationals of sub-alphabets, nil and surds over radicands {2,3,5,8,12}: every unary cell, every pair, 20 law families on all triples of a 14/24-element sub-alphabet, in wide and literal typing modes, compared structurally against exact BigInt arithmetic in the module's documented canonical form; nil (never a runtime error) for nil operands, zero divisors, incompatible radicals.",
+                note="sqrt only where trial division finishes within 4000 steps; abstains where the module documents nothing (numer/denom of a surd, clamp with lo > hi)."),
     "C11": dict(engine="enum", category="model_checking", design="7/C11",
                 technique="explicit-state search over REPL line histories (states are real sessions of the real Repl + Environment + workers), each history compared with the one-piece program",
                 text="All histories of <= 4 (thorough 5) lines over a 16-line alphabet chosen to interact (bindings, shadowing, destructuring, type aliases, closures over earlier bindings, previous-result flow, heap binaries and rebinding, imports, parse/compile-rejected lines, nil lines) plus every cut of 30 corpus programs into lines: per-line value and every bound variable equal the one-piece program; a rejected line leaves the session unchanged; heap accounting holds after every line.",
